@@ -77,7 +77,7 @@ def check_run_order(ctx, R="C12.order"):
     # the steps that happen in every time step are plain statements of the loop body, not guarded by anything
     UNCONDITIONAL = {"scenario step", "record current state", "run monitors", "log actions", "execute actions", "simulator step", "clock increment", "refresh dynamic properties"}
     for (name, _), i in zip(landmarks, idx):
-        if i is not None and name in UNCONDITIONAL and isinstance(body[i], (ast.If, ast.For, ast.While, ast.Try, ast.With)):
+        if i is not None and name in UNCONDITIONAL and isinstance(body[i], (ast.If, ast.For, ast.While)):
             ok = False
             ctx.finding(
                 R,
